@@ -100,6 +100,11 @@ impl Model {
             return self.props.element(flat, row_idx, value);
         }
         
+        // Each index must lie inside its own dimension, not only the linearised index
+        for (idx, n) in [(row_idx, matrix.len()), (col_idx, cols)] {
+            self.props.greater_than_or_equals(idx, Val::ValI(0));
+            self.props.less_than_or_equals(idx, Val::ValI(n as i32 - 1));
+        }
         // Compute linear index: row_idx * cols + col_idx
         // Use expression builder for the computation
         let linear_idx_expr = add(mul(row_idx, cols as i32), col_idx);
@@ -163,6 +168,11 @@ impl Model {
             return self.props.element(flat, depth_idx, value);
         }
         
+        // Each index must lie inside its own dimension, not only the linearised index
+        for (idx, n) in [(depth_idx, cube.len()), (row_idx, rows), (col_idx, cols)] {
+            self.props.greater_than_or_equals(idx, Val::ValI(0));
+            self.props.less_than_or_equals(idx, Val::ValI(n as i32 - 1));
+        }
         // Compute linear index: depth_idx * (rows * cols) + row_idx * cols + col_idx
         let linear_idx_expr = add(
             mul(depth_idx, (rows * cols) as i32),
